@@ -20,10 +20,10 @@ import (
 // client sends session envelopes as objects.
 
 type c03bStep struct {
-	Scheme  string `json:"scheme"`  // guest plain key external transport
-	Secret  string `json:"secret"`  // the secret the application's authenticator knows as right is "right-secret"
-	Encoded string `json:"encoded"` // base64 | raw (sent as is)
-	Name    string `json:"name"`    // identity name: uuid | plain
+	Scheme  string `json:"scheme"`           // guest plain key external transport
+	Secret  string `json:"secret"`           // the secret the application's authenticator knows as right is "right-secret"
+	Encoded string `json:"encoded"`          // base64 | raw (sent as is)
+	Name    string `json:"name"`             // identity name: uuid | plain
 	NoAuth  bool   `json:"noAuth,omitempty"` // the envelope names the scheme but carries no authentication object at all
 }
 
